@@ -62,7 +62,7 @@ func c15Wrappable(name, wrapper string) bool {
 	}
 	if wrapper != "timeout" {
 		switch name {
-		case "PING", "ECHO", "CLIENT", "FOLLOW", "REPLCONF", "AOFSHRINK", "READONLY", "CONFIG GET", "CONFIG SET", "CONFIG REWRITE", "SCRIPT LOAD", "SCRIPT EXISTS", "SCRIPT FLUSH", "PUBLISH", "GC", "AOFMD5":
+		case "PING", "ECHO", "CLIENT", "FOLLOW", "SLAVEOF", "REPLCONF", "AOFSHRINK", "READONLY", "CONFIG GET", "CONFIG SET", "CONFIG REWRITE", "SCRIPT LOAD", "SCRIPT EXISTS", "SCRIPT FLUSH", "PUBLISH", "GC", "AOFMD5":
 			return false
 		}
 	}
@@ -108,7 +108,7 @@ func checkC15(job *Job, res *Result) {
 	// ---- calibration on a plain leader: fresh server per instance
 	modifies := map[int]bool{}
 	for i, it := range insts {
-		if it.Cmd == "FOLLOW" || it.Cmd == "REPLCONF" || it.Cmd == "AOFSHRINK" {
+		if it.Cmd == "FOLLOW" || it.Cmd == "SLAVEOF" || it.Cmd == "REPLCONF" || it.Cmd == "AOFSHRINK" {
 			continue
 		}
 		it := it
@@ -163,7 +163,7 @@ func checkC15(job *Job, res *Result) {
 			}
 			c := mk()
 			for i, it := range insts {
-				if it.Cmd == "FOLLOW" || it.Cmd == "REPLCONF" || it.Cmd == "AOFSHRINK" || it.Cmd == "READONLY" || it.Cmd == "CONFIG SET" || it.Cmd == "CONFIG REWRITE" || it.Cmd == "AUTH" || it.Cmd == "QUIT" {
+				if it.Cmd == "FOLLOW" || it.Cmd == "SLAVEOF" || it.Cmd == "REPLCONF" || it.Cmd == "AOFSHRINK" || it.Cmd == "READONLY" || it.Cmd == "CONFIG SET" || it.Cmd == "CONFIG REWRITE" || it.Cmd == "AUTH" || it.Cmd == "QUIT" {
 					if !(it.Cmd == "AUTH" && strings.HasPrefix(mode, "password")) {
 						continue // would change the mode under test
 					}
